@@ -579,12 +579,50 @@ func scenLateSibling(r *rec, _ int) {
 			siblings = append(siblings, s)
 		}
 	}
+	// descendants of the late store-point siblings across the next epoch boundary: their tallies start from the
+	// persisted quality of the sibling, which must have been saved although it arrived after its epoch was finalized
+	type group struct {
+		cp     uint32 // checkpoint height of the sibling's epoch
+		blocks []*block.Block
+	}
+	var groups []group
+	for _, s := range siblings {
+		g := group{cp: s.Header().Number() / uint32(E) * uint32(E), blocks: []*block.Block{s}}
+		if int(s.Header().Number())%E == E-1 {
+			tip := s
+			for k := 0; k < E+1; k++ {
+				nb := r.mint(tip.Header().ID(), (r.net.SignerOf(tip.Header())+1)%v, true)
+				if nb == nil {
+					break
+				}
+				g.blocks = append(g.blocks, nb)
+				tip = nb
+			}
+		}
+		groups = append(groups, g)
+	}
 	for i := range r.net.Nodes {
+		done := make([]bool, len(groups))
 		for _, b := range chain {
 			r.deliver(i, b)
+			// as soon as the node has finalized exactly the checkpoint of a sibling's epoch, the sibling (and what was
+			// built on it) arrives: late, but still descending from the finalized checkpoint
+			fin := block.Number(r.net.Nodes[i].BFT.Finalized())
+			for k, g := range groups {
+				if !done[k] && fin > 0 && g.cp == fin {
+					done[k] = true
+					for _, x := range g.blocks {
+						r.deliver(i, x)
+					}
+				}
+			}
 		}
-		for _, s := range siblings {
-			r.deliver(i, s)
+		for k, g := range groups {
+			if !done[k] {
+				for _, x := range g.blocks {
+					r.deliver(i, x)
+				}
+			}
 		}
 	}
 }
